@@ -29,3 +29,6 @@ SPEC = {
     "trusted_base": _ip["trusted_base"] + _app["trusted_base"],
     "assumptions": _ip["assumptions"] + _app["assumptions"],
 }
+
+import vlib  # noqa: E402
+vlib.merge_part(SPEC, "C08gen_part")
